@@ -22,7 +22,7 @@ MustList(lvl) ==
          : it \in {x \in LeavesOf(lvl) : ~Hidden(x)}}
   \cup UNION {{p.metavar, p.help} : p \in PosItemsOf(lvl)}
   \cup UNION {{c.names[1], c.help} : c \in LevelCmds(lvl)}
-  \cup {"-h", "--help"} \cup (IF lvl.version THEN {"-V", "--version"} ELSE {})
+  \cup RangeOf(lvl.help_names) \cup (IF lvl.version THEN RangeOf(lvl.ver_names) ELSE {})
 \* what must appear nowhere in the text
 MustNotMention(lvl) ==
   UNION {NamesOf(it) \cup {it.help} \cup (IF it.env # "" THEN {it.env} ELSE {}) : it \in {x \in LeavesOf(lvl) : Hidden(x)}}
